@@ -35,6 +35,16 @@ def xq_code(v: float):
     return [1, f.numerator, f.denominator]
 
 
+def same_value(code, v: float) -> bool:
+    """model value (exact rational / special) vs the implementation's float: special values exactly, finite values to one rounding (2 ulp)"""
+    want = xq_code(v)
+    if code[0] != 1 or want[0] != 1:
+        return code == want
+    exact = Fraction(code[1], code[2])
+    got = Fraction(want[1], want[2])
+    return abs(exact - got) <= Fraction(1, 2 ** 51) * max(abs(exact), abs(got))
+
+
 class Recorder:
     """Replaces the math primitives inside mici.utils by recording wrappers."""
 
@@ -172,7 +182,7 @@ def correspondence(ctx, utils):
         ctx.count("corr:result:" + {0: "LogRepFloat", 1: "float", 2: "True", 3: "False", 4: "exception"}[ik[0]])
         ok = list(mk) == ik and (ik[0] in (2, 3, 4) or list(mp) == ip)
         if ok and ik[0] in (0, 1) and list(mv) != [0] and iv is not None:
-            ok = list(mv) == xq_code(iv)          # primitive-free results must agree exactly
+            ok = same_value(list(mv), iv)         # primitive-free results agree up to the rounding of the one float operation involved
         if list(mk) == [5]:
             # the branch depends on the numerical value of a primitive (e.g. exp(log_val) < plain number):
             # outside what the branch-selection model decides; covered by the theorems and the search only
